@@ -15,6 +15,11 @@ import (
 	"github.com/volatiletech/authboss/v3"
 )
 
+// SessionAuthedPID is the session key holding the pid of the user the
+// verification e-mail was sent to (authboss.Session2FAAuthToken) and whose
+// mailbox is therefore verified once authboss.Session2FAAuthed is set.
+const SessionAuthedPID = "twofactor_authed_pid"
+
 // EmailVerify has a middleware function that prevents access to routes
 // unless e-mail has been verified.
 //
@@ -100,6 +105,12 @@ func (e EmailVerify) PostStart(w http.ResponseWriter, r *http.Request) error {
 	}
 
 	authboss.PutSession(w, authboss.Session2FAAuthToken, token)
+	// Remember whose mailbox the token goes to: the session may log in as
+	// somebody else later without ever being logged out.
+	authboss.PutSession(w, SessionAuthedPID, user.GetPID())
+	// A verification granted earlier (possibly to another user of this
+	// session) does not carry over to the one requested now.
+	authboss.DelSession(w, authboss.Session2FAAuthed)
 	logger.Infof("generated new 2fa e-mail verify token for user: %s", user.GetPID())
 	if e.Authboss.Config.Modules.MailNoGoroutine {
 		e.SendVerifyEmail(ctx, user.GetEmail(), token)
@@ -167,6 +178,14 @@ func (e EmailVerify) End(w http.ResponseWriter, r *http.Request) error {
 
 	// A session that never requested a token holds none: an absent token must
 	// not compare equal to an absent (empty) submission.
+	// The token proves access to the mailbox of the user it was sent to, which
+	// has to be the user that is logged in now.
+	tokenPID, hasTokenPID := authboss.GetSession(r, SessionAuthedPID)
+	currentPID, _ := e.Authboss.CurrentUserID(r)
+	if hasTokenPID && tokenPID != currentPID {
+		givenToken = ""
+	}
+
 	if len(givenToken) == 0 || 1 != subtle.ConstantTimeCompare([]byte(wantToken), []byte(givenToken)) {
 		ro := authboss.RedirectOptions{
 			Code:         http.StatusTemporaryRedirect,
@@ -198,8 +217,13 @@ func (e EmailVerify) Wrap(handler http.Handler) http.Handler {
 		// If this value exists the user's already verified
 		authed, _ := authboss.GetSession(r, authboss.Session2FAAuthed)
 		if authed == "true" {
-			handler.ServeHTTP(w, r)
-			return
+			// The verification only counts for the user whose e-mail was verified
+			verifiedPID, hasPID := authboss.GetSession(r, SessionAuthedPID)
+			currentPID, _ := e.Authboss.CurrentUserID(r)
+			if !hasPID || verifiedPID == currentPID {
+				handler.ServeHTTP(w, r)
+				return
+			}
 		}
 
 		redirURL := path.Join(e.Authboss.Config.Paths.Mount, "2fa", e.TwofactorKind, "email/verify")
